@@ -200,9 +200,35 @@ func genC18(t *rapid.T) (*DCase, map[string]bool) {
 	return &DCase{Prog: ast.Prog(ast.Rule("BEGIN", nil, ast.Block(stmts...)))}, g.labels
 }
 
+// genC18Reuse: one printf site (inside a function) executed 2-3 times with independently
+// generated formats and arguments.
+func genC18Reuse(t *rapid.T) *DCase {
+	n := rapid.IntRange(2, 3).Draw(t, "ncalls")
+	pf := ast.Func("pf", []string{"pff", "pfa", "pfb", "pfc"}, ast.Block(
+		ast.ExprS(ast.Set(ast.Id("pfr"), ast.Call(ast.Id("printf"), ast.Id("pff"), ast.Id("pfa"), ast.Id("pfb"), ast.Id("pfc")))),
+		ast.Print(ast.Str("|after"), ast.Id("pfr"))))
+	var stmts []*ast.Node
+	for k := 0; k < n; k++ {
+		one, _ := genC18(t)
+		// the printf call of the single-call program: r = printf(...)
+		var call *ast.Node
+		for _, st := range one.Prog.C[0].C[1].C {
+			if st.K == "expr" && st.C[0].K == "asg" && st.C[0].C[1].K == "call" {
+				call = st.C[0].C[1]
+			}
+		}
+		args := append([]*ast.Node{}, call.C[1:]...)
+		for len(args) < 4 {
+			args = append(args, ast.Null())
+		}
+		stmts = append(stmts, ast.Print(ast.Str(fmt.Sprintf("call%d", k))), ast.ExprS(ast.Call(ast.Id("pf"), args[:4]...)))
+	}
+	return &DCase{Prog: ast.Prog(pf, ast.Rule("BEGIN", nil, ast.Block(stmts...)))}
+}
+
 func TestC18(t *testing.T) {
 	rec := start(t, "C18", "exploration",
-		"one printf call per program between two print statements: format strings assembled from literal segments (all bytes but %, the quotes and the backslash; \\n and \\t escapes), directives %[width]{s,f,v}, %%, unknown directives, a dangling % or width at the end; widths from {none, 0, 1, len-1, len, len+1, 10, 007, 0(len+2), 2-24 redundant zeros followed by a small width, long zero-prefixed texts at the limit, -1, -len, -(len+3), 4096, 65536, -65536, 65537, -65537, 10^6, a 25-digit number, a lone '-', random}; arguments of every kind (strings incl. multi-byte, numbers incl. -0 / 1e21 / 1e-7, booleans, null, arrays, objects), fitting, of the wrong kind, missing, surplus; a first argument that is not a string; no arguments. Expected stdout bytes (or RuntimeError with nothing of this printf written, earlier output kept) from refjq's formatter (DESIGN.md 4.7). Non-trivial: >= 2 directives, a width within +-1 of the rendering length, or an error case. distinct = distinct program.")
+		"one printf call per program between two print statements (and, in the sub-check printf-site-reuse, one printf site inside a function executed 2-3 times with independently generated formats and arguments): format strings assembled from literal segments (all bytes but %, the quotes and the backslash; \\n and \\t escapes), directives %[width]{s,f,v}, %%, unknown directives, a dangling % or width at the end; widths from {none, 0, 1, len-1, len, len+1, 10, 007, 0(len+2), 2-24 redundant zeros followed by a small width, long zero-prefixed texts at the limit, -1, -len, -(len+3), 4096, 65536, -65536, 65537, -65537, 10^6, a 25-digit number, a lone '-', random}; arguments of every kind (strings incl. multi-byte, numbers incl. -0 / 1e21 / 1e-7, booleans, null, arrays, objects), fitting, of the wrong kind, missing, surplus; a first argument that is not a string; no arguments. Expected stdout bytes (or RuntimeError with nothing of this printf written, earlier output kept) from refjq's formatter (DESIGN.md 4.7). Non-trivial: >= 2 directives, a width within +-1 of the rendering length, or an error case. distinct = distinct program.")
 	defer rec.Finish()
 	rec.Assume("refjq's formatter (DESIGN.md 4.7); a width on %% and a negative width written with a leading zero are unspecified (discarded)")
 	rec.Replayer("printf", replayDiff(false))
@@ -210,6 +236,10 @@ func TestC18(t *testing.T) {
 		return
 	}
 	rec.ReplayTier()
+	check(rec, "printf-site-reuse", scale(4000, 2000000), func(rt *rapid.T) {
+		c := genC18Reuse(rt)
+		runDiff(rec, rt, "printf", c, false, func(d *diffResult) bool { return true }, "site-reuse")
+	})
 	check(rec, "printf-random", scale(25000, 25000000), func(rt *rapid.T) {
 		c, labels := genC18(rt)
 		var ls []string
